@@ -65,13 +65,17 @@ def run(tier):
     # inputs on which only one of the two P-values of the overlapping test is below 0.01
     jp = os.path.join(tmp, "hunt.json"); op = os.path.join(tmp, "hunt.ndjson")
     with open(jp, "w") as fh:
-        json.dump({"serialHunt": 20000 if thorough else 6000, "passHunt": 600 if thorough else 200, "huntSeed": rng.randrange(1 << 40), "inputs": []}, fh)
+        json.dump({"serialHunt": 20000 if thorough else 6000, "passHunt": 600 if thorough else 200, "windowHunt": 6 if thorough else 3, "huntSeed": rng.randrange(1 << 40), "inputs": []}, fh)
     p = vlib.run_bin(hz, ["results", jp, op], timeout=1200)
     if p.returncode != 0:
         raise vlib.InfraError("hz results (hunt) failed: " + (p.stderr or "")[-500:])
     hunt = vlib.read_ndjson(op)
     if sum(1 for e in hunt if e["mode"] == "serialhunt") < 4:
         raise vlib.InfraError("vacuity: found only %d inputs with exactly one overlapping P-value below 0.01" % len(hunt))
+    win = [e for e in hunt if e["mode"].startswith("windowhunt")]
+    if len({(e["t"], e["mode"]) for e in win}) < 4:
+        raise vlib.InfraError("vacuity: results within 1e-6 of the significance level were constructed for only %s" % sorted({(e["t"], e["mode"]) for e in win}))
+    run.extra["results_within_1e-6_of_alpha"] = len(win)
     marg = [e for e in hunt if e["mode"] == "passhunt"]
     if len({e["t"] for e in marg}) < 12:
         raise vlib.InfraError("vacuity: marginal results (1e-5 < P < 0.03) found for only %d of the 15 runners" % len({e["t"] for e in marg}))
@@ -86,6 +90,7 @@ def run(tier):
     run.sample({"res_event": [e for e in events if e["mode"] == "const1"][0]})
     byid = {i["id"]: i for i in inputs}
     byid[-1] = {"id": -1, "mode": "serialhunt", "n": 1024, "seed": 0}
+    byid[-3] = {"id": -3, "mode": "windowhunt", "n": 0, "seed": 0}
     byid[-2] = {"id": -2, "mode": "passhunt", "n": 20000, "seed": 0}
     for e in rej:
         run.violation({"kind": "result", "test": e["t"], "param": e["param"], "n": e["n"], "mode": e["mode"], "isrunner": e["isrunner"]},
